@@ -245,6 +245,9 @@ def _root_index(roots, hx):
     return roots[hx]
 
 
+BASE = [None]
+
+
 def baseline():
     return len(claripy.ast.Base._hash_cache), len(claripy.ast.bv._bvv_cache)
 
@@ -282,7 +285,7 @@ def reach(roots):
     return out
 
 
-def flush_pool(out, written, built, pix):
+def flush_pool(out, written, built, pix, cache):
     """emit one pool: all distinct live objects with their keys; then rebuild every written term alone in an empty
     store and compare the key of what came back (history independence of the returned structure)"""
     objs = reach(built)
@@ -291,7 +294,11 @@ def flush_pool(out, written, built, pix):
     res = [kser(o, memo) for o in built]
     del objs, memo
     built.clear()
+    cache.clear()
     gc.collect()
+    if baseline() != BASE[0]:
+        raise RuntimeError("store not empty before the empty-store rebuild: %r %r" % (
+            baseline(), [(v.op, v.args, gc.get_referrers(v)[:2]) for v in list(claripy.ast.Base._hash_cache.values())][:6]))
     pairs = []
     for t, r in zip(written, res):
         try:
@@ -323,7 +330,7 @@ def run_pools(job, out):
         nonlocal pix
         if not built:
             return
-        a, b, c = flush_pool(out, list(written), built, pix)
+        a, b, c = flush_pool(out, list(written), built, pix, cache)
         tot["pool_nodes"] += a
         tot["pool_built"] += b
         tot["pool_rewritten"] += c
@@ -346,6 +353,7 @@ def run_pools(job, out):
             continue
         written.append(t)
         built.append(o)
+        del o
         live += TM.size(t)
         if live >= mx * 2 or len(built) >= mx:
             if len(reach(built)) >= mx or len(built) >= mx:
@@ -362,12 +370,48 @@ def main():
     gc.collect()
     gc.freeze()          # everything allocated by the imports is permanent: collections during replay stay cheap
     extra = {}
+    BASE[0] = baseline()
     if job["mode"] == "pool":
         extra = run_pools(job, out)
     else:
         al = job["al"]
         out.write({"k": "al", "fam": job["fam"], "K": al["K"], "A": al["A"], "V": al["V"]})
-        if job["mode"] == "canon":
+        if job["mode"] == "selftest":
+            # validator self-test: one genuine recording + copies with ONE recorded field corrupted each; the engine
+            # requires TLC to accept the genuine one and to reject every corrupted one with the expected clause
+            import copy
+            for tix, hist in enumerate(job["hists"]):
+                steps = replay(al, hist, tix)
+                base = {"k": "trace", "tix": tix, "steps": steps, "expect": "", "what": "genuine"}
+                out.write(base)
+                last = len(steps) - 1
+                ret = steps[last]["ret"]
+                c = copy.deepcopy(base)      # the returned object's recorded width
+                c["steps"][last]["occ"][ret - 1]["k"][5] += 1
+                c.update(expect="faithful", what="width of the returned object's key + 1")
+                out.write(c)
+                c = copy.deepcopy(base)      # the returned object's recorded annotation list
+                c["steps"][last]["occ"][ret - 1]["k"][4].append(["HVal", ["77"]])
+                c.update(expect="faithful", what="annotation appended to the returned object's key")
+                out.write(c)
+                ids = sorted({o["id"] for o in steps[last]["occ"]})
+                if len(ids) > 1:
+                    c = copy.deepcopy(base)  # identity partition: two different objects recorded with one id
+                    for o in c["steps"][last]["occ"]:
+                        if o["id"] == ids[1]:
+                            o["id"] = ids[0]
+                    c.update(expect="inj", what="identity class of one object merged into another")
+                    out.write(c)
+                    c = copy.deepcopy(base)  # ret points at another occurrence
+                    other = next(ix for ix, o in enumerate(steps[last]["occ"]) if o["k"] != steps[last]["occ"][ret - 1]["k"])
+                    c["steps"][last]["ret"] = other + 1
+                    c.update(expect="faithful", what="ret redirected to another occurrence")
+                    out.write(c)
+                    c = copy.deepcopy(base)  # one object recorded under two identities
+                    c["steps"][last]["occ"].append({"id": max(ids) + 1, "k": steps[last]["occ"][0]["k"]})
+                    c.update(expect="inj", what="a second identity recorded for an existing key")
+                    out.write(c)
+        elif job["mode"] == "canon":
             # every buildable key of the alphabet, built alone in an empty store, must come back exactly as written
             # (the alphabets are chosen so that claripy does not rewrite them)
             for kind, seq in (("K", al["K"]), ("V", al["V"])):
